@@ -38,6 +38,16 @@ func bookEntries(bk interface{}) map[string][]board.Move {
 	}
 	m := v.FieldByName("moves")
 	if !m.IsValid() || m.Kind() != reflect.Map {
+		// the field may have been renamed: take the one field that is a map from strings to lists
+		m = reflect.Value{}
+		for i := 0; v.Kind() == reflect.Struct && i < v.NumField(); i++ {
+			if f := v.Field(i); f.Kind() == reflect.Map && f.Type().Key().Kind() == reflect.String && f.Type().Elem().Kind() == reflect.Slice {
+				m = f
+				break
+			}
+		}
+	}
+	if !m.IsValid() || m.Kind() != reflect.Map {
 		panic("book has no moves map")
 	}
 	ret := map[string][]board.Move{}
